@@ -131,3 +131,24 @@ func zzCookieRequestOnlyForClientHello() {
 	}
 	zzsymAssert(typ == 1, "cookie_request_only_in_response_to_client_hello")
 }
+
+// Public options -> handshake configuration: the flag the flight handlers consult to skip the cookie exchange
+// (HandshakeConfig.InsecureSkipHelloVerify, read by flight0Parse of DTLS 1.2 and 1.3) is set exactly when the
+// application asked for it with WithInsecureSkipVerifyHello - for every combination of the other "insecure" option
+// (InsecureSkipVerify, which concerns certificate verification only), client-auth policy and session store. A
+// server that merely skips certificate verification still runs the cookie exchange.
+//
+//symgo:entry covers=hello_verify_kept,hello_verify_skipped_on_request
+func zzCfgHelloVerifyOnlySkippedOnRequest() {
+	cfg := &dtlsConfig{}
+	cfg.InsecureSkipVerify = zzsymChoice("insecure_skip_verify", 2) == 1
+	cfg.InsecureSkipVerifyHello = zzsymChoice("insecure_skip_verify_hello", 2) == 1
+	cfg.ClientAuth = ClientAuthType(zzsymChoice("client_auth", 5))
+	hc := newHandshakeConfig(cfg, connConfigValues{}, nil)
+	zzsymAssert(hc.InsecureSkipHelloVerify == cfg.InsecureSkipVerifyHello, "cookie_exchange_skipped_only_on_explicit_request")
+	if hc.InsecureSkipHelloVerify {
+		zzsymCover("hello_verify_skipped_on_request")
+	} else {
+		zzsymCover("hello_verify_kept")
+	}
+}
